@@ -23,7 +23,7 @@ META = {
         "unicode, bool, none) written as !!python/.., as verbatim !<tag:yaml.org,2002:python/..> and through a %TAG "
         "handle, plus unregistered !tags (plain, dotted importable names, names of real classes) - x targets "
         "(builtins, os/subprocess functions, already-imported and never-imported canary modules, cobald classes, "
-        "not-yet-imported stdlib modules) x positions (document root, extra section, pipeline element, inside the "
+        "not-yet-imported stdlib modules) x positions (document root, a second or third document of the same stream, extra section, pipeline element, inside the "
         "arguments of a lazily and of an eagerly evaluated registered tag in mapping and sequence form, nested two "
         "levels deep, behind an anchor/alias, as a key of a plain mapping and of the mapping directly under a lazy / eager "
         "registered tag, as the value of a merge key, as a tag on the top-level mapping that holds the sections, in a value that a repeated key "
@@ -111,7 +111,12 @@ POSITIONS = {
     "dup_section": "vextra: %(h)s\npipeline:\n  - !VPool\nvextra: {b: 1}\n",
     "logging_section": "logging: {version: 1, x: %(h)s}\npipeline:\n  - !VPool\n",
     "shipped_tag_arg": "pipeline:\n  - !LinearController {rate: %(h)s}\n  - !VPool\n",
+    # a later document of the same stream (the file is one configuration: everything in it is "the document")
+    "second_document": "pipeline:\n  - !VPool\n%(directive)s---\nextra: %(h)s\n",
+    "second_document_root": "pipeline:\n  - !VPool\n...\n%(directive)s--- %(h)s\n",
+    "third_document": "pipeline:\n  - !VPool\n---\n---\n%(directive)s---\n- [%(h)s]\n",
 }
+MULTI_DOC = ("second_document", "second_document_root", "third_document")
 BENIGN = "!VSnapLazy {ok: 1}"
 KEY_POSITIONS = ("mapping_key", "lazy_tag_mapping_key", "eager_tag_mapping_key")
 
@@ -120,8 +125,13 @@ def all_cases():
     cases = []
     for label, node in hostile_nodes():
         for pos, template in POSITIONS.items():
-            text = template % {"h": node, "tag": node.split(" ")[0]}
-            if node.startswith("!py!") and pos == "root_tag_on_sections":
+            directive = "...\n%TAG !py! tag:yaml.org,2002:python/\n" if node.startswith("!py!") else ""
+            if pos == "second_document_root" and directive:
+                directive = directive[4:]  # the template ends the first document itself
+            text = template % {"h": node, "tag": node.split(" ")[0], "directive": directive}
+            if pos in MULTI_DOC:
+                pass  # the first document needs no directive
+            elif node.startswith("!py!") and pos == "root_tag_on_sections":
                 text = "%TAG !py! tag:yaml.org,2002:python/\n" + text  # the template brings its own document marker
             elif node.startswith("!py!"):
                 text = "%TAG !py! tag:yaml.org,2002:python/\n---\n" + text
@@ -255,7 +265,9 @@ def run_product(spec, result):
         hostile = hostile_nodes_by_label()[case["label"]]
         special = {"root": "{pipeline: [!VPool ]}", "pipeline_element": "!VDeco", "pipeline_tail": "!VPool", "mapping_key": "plainkey",
                    "lazy_tag_mapping_key": "plainkey", "eager_tag_mapping_key": "plainkey", "shipped_tag_arg": "2", "merge_value": "{a: 1}"}
-        if case["position"] == "root_tag_on_sections":
+        if case["position"] in MULTI_DOC:
+            twin = "pipeline:\n  - !VPool\n"  # the stream without the later documents
+        elif case["position"] == "root_tag_on_sections":
             twin = case["text"].replace("--- " + hostile.split(" ")[0], "---")
         else:
             twin = case["text"].replace(hostile, special.get(case["position"], BENIGN))
